@@ -95,6 +95,11 @@ def layouts(tier):
         ]
         for regs in triples:
             add(aw, dw, 0, regs, (None, 0, 1, 2) if not quick else (None, 0, 1))
+        # registers spanning many bus words (7-8 chunks) next to a small one, aligned and unaligned
+        if dw == 1 or not quick:
+            add(4, dw, 0, [_reg((7 if not quick else 5) * dw + 1, "rw", None), _reg(1, "rw", None)], (None, 0))
+            add(4, dw, 0, [_reg(1, "rw", 1), _reg(6 * dw + 1, "rw", 2)], (None, 0) if quick else (None, 0, 1))
+            add(4, dw, 0, [_reg(5 * dw, "r", 3), _reg(5 * dw, "w", 9)], (None,))
         if not quick:
             # thorough: 4 address bits, wider registers, alignment 2
             for (w0, w1) in ((3 * dw + 1, dw + 1), (dw + 1, 3 * dw + 1), (4 * dw, 1)):
